@@ -14,12 +14,26 @@ import (
 	"github.com/ThreeDotsLabs/watermill/zzverif/vrt"
 )
 
+// c14Repo: the real map repository from its constructor; the clean-up loop the constructor starts stays idle (its
+// modelled ticker delivers nothing), HarnessC14Window drives a second loop with its own ticks.
 func c14Repo(window time.Duration) *mapExpiringKeyRepository {
-	return &mapExpiringKeyRepository{window: window, mu: &sync.Mutex{}, tags: make(map[string]time.Time)}
+	models.TickerTicks = 0
+	kr, err := NewMapExpiringKeyRepository(window)
+	vrt.Assert(err == nil, "repository created")
+	return kr.(*mapExpiringKeyRepository)
 }
+
+// keys: two short ones and two long ones that differ only after their 40th byte
+const (
+	c14LongA = "order-7f3c2a9e-5b1d-4e8a-9c60-2f4b7d1e8a35/attempt-A"
+	c14LongB = "order-7f3c2a9e-5b1d-4e8a-9c60-2f4b7d1e8a35/attempt-B"
+)
 
 func c14Msg(i int) (*message.Message, string) {
 	key := vrt.PickStr("key"+strconv.Itoa(i), "a", "b")
+	if vrt.Bool("key" + strconv.Itoa(i) + ".long") {
+		key = vrt.PickStr("key"+strconv.Itoa(i)+".l", c14LongA, c14LongB)
+	}
 	m := message.NewMessage("m"+strconv.Itoa(i), nil)
 	m.Metadata.Set("key", key)
 	return m, key
@@ -62,7 +76,7 @@ func c14Once(n int, viaPublisher bool) {
 	for i := 0; i < n; i++ {
 		<-done
 	}
-	for _, k := range []string{"a", "b"} {
+	for _, k := range []string{"a", "b", c14LongA, c14LongB} {
 		present := 0
 		for i := 0; i < n; i++ {
 			if keys[i] == k {
@@ -192,6 +206,12 @@ func HarnessC14Window() {
 	vrt.Assert(err == nil && !dup, "first arrival is accepted")
 	lastTick := t1
 	ticked := false
+	if vrt.Bool("another.key.in.between") {
+		// other keys keep arriving: that must not keep an expired key alive
+		vrt.Advance()
+		o, err := kr.IsDuplicate(context.Background(), "another")
+		vrt.Assert(err == nil && !o, "a different key is accepted")
+	}
 	if vrt.Bool("duplicate.in.between") {
 		// a duplicate arriving in the meantime is dropped and must not extend the retention of the key
 		vrt.Advance()
